@@ -236,7 +236,19 @@ class Director:
                             tb.mv((i + 1) % 4, *gp.rand_constraints(rng, self.evs, self.svs, p=0.4)), tb.mv((i + 1) % 4),
                             self.small_pattern(E, meta=0.3)))
             code = emit(s_) + emit(E) + bytes([12, 26, 2, 0, 1, 22, x]) + emit(q) + bytes([27])   # build q, pop it (keeps the stream shape simple)
+            two_step = rng.random() < 0.3 and len(sess.memory) < 240
+            if two_step:
+                # ... instantiation INTO it in two steps: first a metavariable that declares x fresh, itself under a pending substitution
+                # whose plug brings x back; then that metavariable
+                j = (i + 1) % 4
+                y = (x + 1) % 3
+                t = rng.choice((tb.ap(tb.ev(x), tb.sy(rng.choice(self.syms))), tb.ev(x), tb.im(tb.ev(x), tb.ev(y))))
+                q = tb.es(tb.mv(j, ef=(x,)), y, t)
+                q2 = rng.choice((tb.ev(y), tb.ap(tb.sy(rng.choice(self.syms)), tb.ev(y)), tb.im(tb.ev(y), tb.ev(y))))
             code = emit(s_) + emit(E) + bytes([12, 26, 2, 0, 1, 22, x, 28, 27]) + emit(q) + bytes([29, len(sess.memory), 26, 1, i]) if len(sess.memory) < 250 else code
+            if two_step:
+                code += bytes([28, 27]) + emit(q2) + bytes([29, len(sess.memory) + 1, 26, 1, j])
+                return 'pending_gen_two_step', code
             return 'pending_gen', code
         if kind == 'pending_mu':
             # positivity THROUGH a pending substitution: P = mu X . (phi_i{constraints}[g/Y]) built as a pattern, used as a plug, then phi_i instantiated
